@@ -1152,7 +1152,8 @@ class ContainerProperty(_ElementBase):
             sub_node = self._get_element_by_child_name(node, self._sub_element_name, create_missing_nodes=False)
             node_type_str = sub_node.get(QN_TYPE)
             if node_type_str is not None:
-                node_type = text_to_qname(node_type_str, node.nsmap)
+                # the prefix of the xsi:type value is resolved in the scope of the element that carries it
+                node_type = text_to_qname(node_type_str, sub_node.nsmap)
                 value_class = self._cls_getter(node_type)
             else:
                 value_class = self.value_class
